@@ -181,6 +181,8 @@ class Gen(object):
         for cid in range(1, rng.choice([1, 2, 2, 3, 4]) + 1):
             kind = 2 if rng.random() < 0.3 else 1
             state = rng.choice([1, 2, 3, 3, 4, 5])
+            if kind == 2 and rng.random() < 0.3:
+                state = 6       # f_nocancel only: the owner of f cancels it; the wrapper's cancel() must still say False
             cs = {"id": cid, "kind": kind, "state": state, "D": rng.choice([100, 300]),
                   "val": rng.choice(P.VALUE_IDX), "exc": rng.choice(sorted(P.EXCS)), "callers": [], "cancels": []}
             if kind == 2:
